@@ -77,8 +77,8 @@ pub enum Meta {
 
 #[derive(Clone, Debug)]
 pub struct Attr {
-    cfg: Cfg,
-    meta: Meta,
+    pub cfg: Cfg,
+    pub meta: Meta,
 }
 
 impl Attr {
@@ -96,10 +96,10 @@ impl Attr {
     }
 }
 
-fn attrs_sexp(a: &[Attr]) -> String {
+pub fn attrs_sexp(a: &[Attr]) -> String {
     format!("(attrs{})", a.iter().map(|x| format!(" {}", x.sexp())).collect::<String>())
 }
-fn attrs_rust(a: &[Attr], indent: &str) -> String {
+pub fn attrs_rust(a: &[Attr], indent: &str) -> String {
     a.iter().map(|x| format!("{indent}{}\n", x.rust())).collect()
 }
 
@@ -207,7 +207,7 @@ impl Module {
     }
 }
 
-const NAMES: [&str; 7] = ["c", "cpp", "js", "dart", "kotlin", "nanobind", "demo_gen"];
+pub const NAMES: [&str; 7] = ["c", "cpp", "js", "dart", "kotlin", "nanobind", "demo_gen"];
 const FLAGS: [&str; 6] = ["namespacing", "memory_sharing", "option", "callbacks", "utf8_strings", "static_slices"];
 
 fn gen_cfg(rng: &mut Rng, depth: usize) -> Cfg {
@@ -236,7 +236,7 @@ fn gen_cfg(rng: &mut Rng, depth: usize) -> Cfg {
     }
 }
 
-fn gen_attrs(rng: &mut Rng, p_num: usize, p_den: usize, rename_ok: bool, tag: &str) -> Vec<Attr> {
+pub fn gen_attrs(rng: &mut Rng, p_num: usize, p_den: usize, rename_ok: bool, tag: &str) -> Vec<Attr> {
     let mut v = vec![];
     while rng.chance(p_num, p_den) && v.len() < 2 {
         let cfg = gen_cfg(rng, 3);
@@ -272,7 +272,7 @@ pub fn gen_module(rng: &mut Rng) -> Module {
     Module { attrs: gen_attrs(rng, 1, 5, true, "Mod"), types }
 }
 
-fn validator(target: &str) -> hir::BasicAttributeValidator {
+pub fn validator(target: &str) -> hir::BasicAttributeValidator {
     let (sup, others) = diplomat_tool::verif_hooks::attr_support(target).unwrap();
     let mut v = hir::BasicAttributeValidator::new(target);
     v.support = sup;
@@ -418,7 +418,7 @@ fn metamorphic(m: &Module, rng: &mut Rng, rep: &mut Report) {
     }
 }
 
-fn contains_symbol(text: &str, sym: &str) -> bool {
+pub fn contains_symbol(text: &str, sym: &str) -> bool {
     let mut start = 0;
     while let Some(p) = text[start..].find(sym) {
         let end = start + p + sym.len();
